@@ -88,3 +88,51 @@ package internal
 //@ func (*UnaryServerTransportStream).Method
 //@   ensures[C10] result == sts.Name
 //@   modifies nothing
+
+// Header / trailer accumulators (C03): per key the value list grows by exactly
+// the number of values given (append, never overwrite), keys not mentioned keep
+// their list, and once sent a further set fails and changes nothing. (Stated
+// for a metadata argument that is not the accumulator map itself.)
+//@ func (*UnaryServerTransportStream).setHeaderLocked
+//@   requires held(&sts.mu)
+//@   ensures[C03] sent_headers_refused_and_nothing_changes: old(sts.hdrsSent) ==> result != nil && sts.hdrs == old(sts.hdrs) && (forall k string :: has(sts.hdrs, k) == old(has(sts.hdrs, k)) && sts.hdrs[k] == old(sts.hdrs[k]))
+//@   loop loop#1 invariant[C03] map_ready: md != old(sts.hdrs) ==> sts.hdrs != nil && sts.hdrs != md && !(sts.hdrsSent) && held(&sts.mu) && (old(sts.hdrs) != nil ==> sts.hdrs == old(sts.hdrs))
+//@   loop loop#1 invariant[C03] visited_keys_grew_others_unchanged: md != old(sts.hdrs) ==> (forall k string :: (iter_visited(k) && has(md, k) ==> has(sts.hdrs, k) && len(sts.hdrs[k]) == old(len(sts.hdrs[k])) + len(md[k])) && (!iter_visited(k) ==> has(sts.hdrs, k) == old(has(sts.hdrs, k)) && (has(sts.hdrs, k) ==> sts.hdrs[k] == old(sts.hdrs[k]))))
+//@   loop loop#1 invariant[C03] source_map_unchanged: md != old(sts.hdrs) ==> (forall k string :: has(md, k) == old(has(md, k)) && md[k] == old(md[k]) && (iter_visited(k) ==> has(md, k)))
+//@   ensures[C03] every_given_key_grows_by_its_values: !old(sts.hdrsSent) && md != old(sts.hdrs) ==> (forall k string :: has(md, k) ==> has(sts.hdrs, k) && len(sts.hdrs[k]) == old(len(sts.hdrs[k])) + len(md[k]))
+//@   ensures[C03] other_keys_keep_their_values: !old(sts.hdrsSent) && md != old(sts.hdrs) ==> (forall k string :: !has(md, k) ==> has(sts.hdrs, k) == old(has(sts.hdrs, k)) && (has(sts.hdrs, k) ==> sts.hdrs[k] == old(sts.hdrs[k])))
+//@   ensures[C03] sent_headers_accepted_otherwise: !old(sts.hdrsSent) ==> result == nil
+//@   modifies sts.hdrs, maps("metadata.MD"), mem("string")
+//
+//@ func (*UnaryServerTransportStream).SetTrailer
+//@   ensures[C03] sent_trailers_refused_and_nothing_changes: at_lock(sts.tlrsSent) ==> result != nil && sts.tlrs == at_lock(sts.tlrs) && (forall k string :: has(sts.tlrs, k) == at_lock(has(sts.tlrs, k)) && sts.tlrs[k] == at_lock(sts.tlrs[k]))
+//@   loop loop#1 invariant[C03] map_ready: md != at_lock(sts.tlrs) ==> sts.tlrs != nil && sts.tlrs != md && !(sts.tlrsSent) && held(&sts.mu) && (at_lock(sts.tlrs) != nil ==> sts.tlrs == at_lock(sts.tlrs))
+//@   loop loop#1 invariant[C03] visited_keys_grew_others_unchanged: md != at_lock(sts.tlrs) ==> (forall k string :: (iter_visited(k) && has(md, k) ==> has(sts.tlrs, k) && len(sts.tlrs[k]) == at_lock(len(sts.tlrs[k])) + len(md[k])) && (!iter_visited(k) ==> has(sts.tlrs, k) == at_lock(has(sts.tlrs, k)) && (has(sts.tlrs, k) ==> sts.tlrs[k] == at_lock(sts.tlrs[k]))))
+//@   loop loop#1 invariant[C03] source_map_unchanged: md != at_lock(sts.tlrs) ==> (forall k string :: has(md, k) == at_lock(has(md, k)) && md[k] == at_lock(md[k]) && (iter_visited(k) ==> has(md, k)))
+//@   ensures[C03] every_given_key_grows_by_its_values: !at_lock(sts.tlrsSent) && md != at_lock(sts.tlrs) ==> (forall k string :: has(md, k) ==> has(sts.tlrs, k) && len(sts.tlrs[k]) == at_lock(len(sts.tlrs[k])) + len(md[k]))
+//@   ensures[C03] other_keys_keep_their_values: !at_lock(sts.tlrsSent) && md != at_lock(sts.tlrs) ==> (forall k string :: !has(md, k) ==> has(sts.tlrs, k) == at_lock(has(sts.tlrs, k)) && (has(sts.tlrs, k) ==> sts.tlrs[k] == at_lock(sts.tlrs[k])))
+//@   ensures[C03] sent_trailers_accepted_otherwise: !at_lock(sts.tlrsSent) ==> result == nil
+//@   modifies sts.tlrs, maps("metadata.MD"), mem("string")
+//
+//@ func (*UnaryServerTransportStream).SetHeader
+//@   ensures[C03] same_as_setHeaderLocked_under_the_lock: calls("(*UnaryServerTransportStream).setHeaderLocked") == 1 && result == lastresult("(*UnaryServerTransportStream).setHeaderLocked")
+//@   assert_call[C03] (*UnaryServerTransportStream).setHeaderLocked : arg0 == sts && arg1 == md
+//@   modifies sts.hdrs, maps("metadata.MD"), mem("string")
+//
+//@ func (*UnaryServerTransportStream).SendHeader
+//@   ensures[C03] sets_then_marks_sent: calls("(*UnaryServerTransportStream).setHeaderLocked") == 1 && (lastresult("(*UnaryServerTransportStream).setHeaderLocked") != nil ==> result == lastresult("(*UnaryServerTransportStream).setHeaderLocked")) && (lastresult("(*UnaryServerTransportStream).setHeaderLocked") == nil ==> result == nil)
+//@   assert_call[C03] (*UnaryServerTransportStream).setHeaderLocked : arg0 == sts && arg1 == md
+//@   modifies sts.hdrs, sts.hdrsSent, maps("metadata.MD"), mem("string")
+//
+//@ func (*ServerTransportStream).SetHeader
+//@   ensures[C03] delegates_once: calls("grpc.ServerStream.SetHeader") == 1 && result == lastresult("grpc.ServerStream.SetHeader")
+//@   assert_call[C03] grpc.ServerStream.SetHeader : arg0 == sts.Stream && arg1 == md
+//@   modifies everything
+//@ func (*ServerTransportStream).SendHeader
+//@   ensures[C03] delegates_once: calls("grpc.ServerStream.SendHeader") == 1 && result == lastresult("grpc.ServerStream.SendHeader")
+//@   assert_call[C03] grpc.ServerStream.SendHeader : arg0 == sts.Stream && arg1 == md
+//@   modifies everything
+//@ func (*ServerTransportStream).SetTrailer
+//@   ensures[C03] error_reporting_setter_preferred: called("internal.trailerWithErrors.TrySetTrailer") ==> result == lastresult("internal.trailerWithErrors.TrySetTrailer") && !called("grpc.ServerStream.SetTrailer")
+//@   ensures[C03] otherwise_plain_setter_once: !called("internal.trailerWithErrors.TrySetTrailer") ==> calls("grpc.ServerStream.SetTrailer") == 1 && result == nil
+//@   modifies everything
